@@ -12,7 +12,7 @@ def withData (it : It) (d : Tbl → Option (List (List Row))) : It := { it with 
 def reloaded (it : It) (m : Nat) : It :=
   { it with ctr := 0, s := m, e := (min ((m : Int) + it.sr) it.maxEv).toNat }
 
-theorem loadData_eq {o : Opts} {f : File} (hi : Inv o f) (it : It) (hc : 0 < it.step) (hse : it.s < it.e)
+theorem loadData_eq {f : File} (it : It) (hc : 0 < it.step) (hse : it.s < it.e)
     (he : it.e ≤ f.index.length) (hn : ∀ t, t ∉ f.cols → it.data t = none) :
     loadData f it = .ok (withData it (chunkData f it.s it.e it.step)) := by
   have hne : strided it.s it.e it.step ≠ [] := by rw [strided_cons hc hse]; simp
@@ -21,7 +21,7 @@ theorem loadData_eq {o : Opts} {f : File} (hi : Inv o f) (it : It) (hc : 0 < it.
     intro t
     unfold chunkData
     by_cases ht : t ∈ f.cols
-    · rw [if_pos ht, if_pos ht, loadTable_eq f t _ _ _ hne (srt_strided hi t hc he)]; rfl
+    · rw [if_pos ht, if_pos ht, loadTable_eq f t _ _ _ hne]; rfl
     · rw [if_neg ht, if_neg ht, hn t ht]
   simp only [loadData, hgo, withData]
   congr 2
@@ -59,7 +59,7 @@ structure Pre (f : File) (n b c : Nat) (it : It) (m : Nat) : Prop where
 theorem getEvent_nocol {f : File} (hc : ColInv f) {t : Tbl} (ht : t ∉ f.cols) (i : Nat) : getEvent f i t = [] := by
   rw [getEvent_eq, hc t ht i]; simp
 
-theorem collect_eq {o : Opts} {f : File} (hi : Inv o f) (hcol : ColInv f) {n b c : Nat}
+theorem collect_eq {f : File} (hcol : ColInv f) {n b c : Nat}
     (hn : n = f.index.length) (hc : 0 < c) (hb : b ≤ n) :
     ∀ (fuel : Nat) (it : It) (m : Nat), Pre f n b c it m → (strided m b c).length < fuel →
       collect f fuel it = ((strided m b c).map (fun i t => getEvent f i t), Err.stop) := by
@@ -82,7 +82,7 @@ theorem collect_eq {o : Opts} {f : File} (hi : Inv o f) (hcol : ColInv f) {n b c
         have hmax := hp.maxEv
         have he1 : m < (min ((m : Int) + it.sr) it.maxEv).toNat := by omega
         have he2 : (min ((m : Int) + it.sr) it.maxEv).toNat ≤ n := by omega
-        rw [loadData_eq hi (reloaded it m) (by show 0 < it.step; rw [hp.step]; exact hc) he1
+        rw [loadData_eq (reloaded it m) (by show 0 < it.step; rw [hp.step]; exact hc) he1
           (by rw [← hn]; exact he2) hp.nocol]
         simp only []
         have hpre : Pre f n b c (withData (reloaded it m) (chunkData f m (reloaded it m).e it.step)) (m + c) := by
